@@ -12,12 +12,12 @@
 #include "common.h"
 #include "assert_hook.h"
 
-struct IN_t { unsigned char len, sym[RF_N], chunk[RF_N + 1]; } IN;
+struct IN_t { unsigned char len, sym[RF_N], chunk[RF_N + 1], failat; } IN;   // failat: index of the fread() call that fails (255: none)
 struct IN_t nondet_IN(void);
 static const char RF_ALPHA[4] = { '\r', '\n', 'a', '\\' };
 
 static char rf_in[RF_N + 1];
-static int rf_pos, rf_reads;
+static int rf_pos, rf_reads, rf_err;
 static char rf_mem[RF_N + 4];
 static int rf_memlen;
 static char **rf_bufp; static size_t *rf_lenp;
@@ -25,6 +25,7 @@ static FILE rf_in_file, rf_out_file;
 static FILE *rf_fopen(const char *path, const char *mode) { return &rf_in_file; }
 static size_t rf_fread(void *dst, size_t sz, size_t n, FILE *f) {
   int remaining = IN.len - rf_pos;
+  if (rf_reads == IN.failat) { rf_reads++; rf_err = 1; return 0; }   // read error (EIO, EISDIR...): short count + error indicator
   if (remaining <= 0) return 0;
   int k = IN.chunk[rf_reads < RF_N ? rf_reads : RF_N];        // arbitrary positive count <= what is left / asked for
   rf_reads++;
@@ -41,6 +42,8 @@ static size_t rf_fwrite(const void *src, size_t sz, size_t n, FILE *f) {
 }
 static int rf_fputc(int c, FILE *f) { if (rf_memlen < RF_N + 3) rf_mem[rf_memlen++] = (char)c; rf_sync(); return c; }
 static int rf_fflush(FILE *f) { rf_sync(); return 0; }
+static int rf_ferror(FILE *f) { return f == &rf_in_file ? rf_err : 0; }
+static void rf_free(void *p) {}
 static int rf_fclose(FILE *f) { if (f == &rf_out_file) rf_sync(); return 0; }
 #define fopen rf_fopen
 #define fread rf_fread
@@ -50,7 +53,12 @@ static int rf_fclose(FILE *f) { if (f == &rf_out_file) rf_sync(); return 0; }
 #define fputc rf_fputc
 #define fflush rf_fflush
 #define fclose rf_fclose
+#undef ferror
+#define ferror rf_ferror
+#define free rf_free                      /* the memstream buffer belongs to the model (static storage) */
 #include "tokenize.c"
+#undef ferror
+#undef free
 #undef fopen
 #undef fread
 #undef open_memstream
@@ -75,7 +83,7 @@ Token *stub_tokenize(File *file) { seen_contents = file->contents; static Token 
 
 void h_readfile_newlines(void) {
   HAVOC_IN();
-  __CPROVER_assume(IN.len <= RF_N);
+  __CPROVER_assume(IN.len <= RF_N && IN.failat == 255);
   for (int i = 0; i < RF_N; i++) { __CPROVER_assume(IN.sym[i] < 4); rf_in[i] = i < IN.len ? RF_ALPHA[IN.sym[i]] : 0; }
   // ---- reference (C11 5.1.1.2 phases 1-2 as tokenize.c documents them) ----
   char p1[RF_N + 2]; int n1 = 0;
@@ -101,4 +109,20 @@ void h_readfile_newlines(void) {
   for (int k = 0; k < RF_N + 3; k++)
     if (k <= o) VASSERT(seen_contents[k] == want[k], "text after phases 1-2 (newline structure) does not depend on how fread() chunks the file");
   VCOVER();
+}
+
+// C14 (unreadable input): when any fread() of the input reports an error - the input is a directory, the medium fails -
+// tokenize_file() must NOT hand a truncated text to the compiler as if it were the file: it returns NULL, which both
+// callers (must_tokenize_file in main.c, include_file in preprocess.c) turn into "cannot open file" and a non-zero exit.
+void h_readfile_error(void) {
+  HAVOC_IN();
+  __CPROVER_assume(IN.len <= RF_N && IN.failat <= RF_N);
+  for (int i = 0; i < RF_N; i++) { __CPROVER_assume(IN.sym[i] < 4); rf_in[i] = i < IN.len ? RF_ALPHA[IN.sym[i]] : 0; }
+  rf_pos = rf_reads = rf_err = 0;
+  seen_contents = NULL;
+  Token *t = tokenize_file("f.c");
+  if (rf_err) {
+    VASSERT(t == NULL && seen_contents == NULL, "a read error on the input is reported (NULL), not compiled as a shorter file");
+    VCOVER();
+  }
 }
